@@ -43,7 +43,13 @@ def main():
         runs.append(dict(check=p, exit=rc, seconds=round(time.time() - t0), lines=lines[:8]))
         print('%s: check %s -> exit %d (%ds) %s' % (name, p, rc, time.time() - t0, ' | '.join(l[:150] for l in lines[:3])))
     shutil.rmtree(rcopy, ignore_errors=True)
-    meta['check_runs'] = runs
+    prev = {}
+    if os.path.exists(os.path.join(dst, 'meta.json')):
+        prev = json.load(open(os.path.join(dst, 'meta.json')))
+    meta['earlier_runs'] = prev.get('earlier_runs', []) + [r for r in prev.get('check_runs', []) if any(r['check'] == n['check'] for n in runs)]
+    meta['check_runs'] = [r for r in prev.get('check_runs', []) if not any(r['check'] == n['check'] for n in runs)] + runs
+    if prev.get('note'):
+        meta['note'] = prev['note']
     meta['false_alarm'] = any(r['exit'] == 1 for r in runs)
     json.dump(meta, open(os.path.join(dst, 'meta.json'), 'w'), indent=1, ensure_ascii=False)
     return 0
